@@ -335,7 +335,13 @@ func (dec *tomlDecoder) processArrayTable(currentNode *toml.Node) (bool, error) 
 
 	hasValue := dec.parser.NextExpression()
 	if !hasValue {
-		return false, fmt.Errorf("error retrieving table %v value: %w", fullPath, dec.parser.Error())
+		if err := dec.parser.Error(); err != nil {
+			return false, fmt.Errorf("error retrieving table %v value: %w", fullPath, err)
+		}
+		// the header ends the input: the element is an empty table
+		c := Context{}
+		c = c.SingleChildContext(dec.rootMap)
+		return false, dec.arrayAppend(c, fullPath, &CandidateNode{Kind: MappingNode, Tag: "!!map"})
 	}
 
 	tableNodeValue := &CandidateNode{
